@@ -23,6 +23,11 @@ Theorem C16_delete : forall k s k', lget k' (ldelete k s) = if String.eqb k' k t
 Proof. exact delete_spec. Qed.
 Print Assumptions C16_delete.
 
+(* an emptied store holds no key and accepts every write again *)
+Theorem C16_clear : forall s k v e, lget k (lclear s) = None /\ lput k v e (lclear s) = (LOk, [(k, v)]).
+Proof. exact clear_spec. Qed.
+Print Assumptions C16_clear.
+
 (* a listing holds exactly the names under the prefix (cut after the first delimiter when one is
    given), each once, in byte-lexicographic order *)
 Theorem C16_listing_exact : forall p d s x,
